@@ -210,6 +210,8 @@ def check(pm: ProgramModel, ctx: Ctx) -> None:
     ctx.check(isinstance(r, tuple) and r[0] == "COUNT" and r[1] is fm1, "C13-WRAP", "execute",
               loc(ex.unit.path, ex.node), "execute(model).get_result() is the count of that model",
               bad=f"execute/get_result do not return count_configurations(model): {r!r}")
+    from .c19 import op_sequences
+    op_sequences(pm, ctx, ModelBuilder(pm), [pm.cls(n_) for n_ in ('FMEstimatedConfigurationsNumber',) if pm.has_cls(n_)], "C13")
     ctx.floor(rule, "contexts", len(contexts), 40)
 
 
